@@ -19,6 +19,7 @@ import (
 	"go/token"
 	"io"
 	"os"
+	"os/signal"
 	"path"
 	"path/filepath"
 	"regexp"
@@ -26,6 +27,7 @@ import (
 	"sort"
 	"strconv"
 	"strings"
+	"syscall"
 	"testing"
 	"time"
 
@@ -87,6 +89,8 @@ type world struct {
 	matcherCache map[string]bothMatcher
 	pkgTurn  bool
 	dead     bool
+	limitNext bool
+	envRestore map[string]*string
 	dirsBefore map[string]bool
 	optBuf     []func(*Config)
 	bufTurn  bool
@@ -417,6 +421,15 @@ type ptrOrder struct {
 type namedString string
 type namedBytes []byte
 
+// a struct with a String method (logging helper, generated stringer): a Go value like any other - it is stored as
+// its marshalled document, never as its String() text
+type stringerSvc struct {
+	Name  string   `yaml:"name" json:"name"`
+	Hosts []string `yaml:"hosts" json:"hosts"`
+}
+
+func (s stringerSvc) String() string { return fmt.Sprintf("service %s (%d hosts)", s.Name, len(s.Hosts)) }
+
 // goValue builds the Go value passed for input form "v"
 func goValue(form string, doc []byte) any {
 	switch form {
@@ -437,6 +450,8 @@ func goValue(form string, doc []byte) any {
 			Z int `json:"z"`
 			A int `json:"a"`
 		}{1, 2}}
+	case "vstringer":
+		return stringerSvc{Name: string(doc), Hosts: []string{"h1", "h2"}}
 	case "vnstr":
 		// a value of a NAMED string type (type Status string): a Go value like any other, marshalled to a
 		// JSON / YAML string whatever its content looks like
@@ -828,10 +843,63 @@ func (w *world) exec(line string) {
 	w.exec1(line)
 }
 
+// fsizeLimit sets the soft RLIMIT_FSIZE of the process (0: every write that would give a regular file any content
+// fails with EFBIG - the image of a full disk / exceeded quota) and returns the function that restores it
+func fsizeLimit(n uint64) func() {
+	signal.Ignore(syscall.SIGXFSZ)
+	var old syscall.Rlimit
+	if syscall.Getrlimit(syscall.RLIMIT_FSIZE, &old) != nil {
+		return func() {}
+	}
+	syscall.Setrlimit(syscall.RLIMIT_FSIZE, &syscall.Rlimit{Cur: n, Max: old.Max})
+	return func() { syscall.Setrlimit(syscall.RLIMIT_FSIZE, &old) }
+}
+
 func (w *world) exec1(line string) {
 	tok := strings.Fields(line)
 	atoi := func(s string) int { n, _ := strconv.Atoi(s); return n }
+	if w.limitNext {
+		switch tok[0] {
+		case "snap", "json", "sajson", "yaml", "sasnap":
+			// armed by `fslimit`: this one call runs with a file-size limit of 0 (the harness's own output is
+			// flushed before and only buffered meanwhile)
+			w.limitNext = false
+			w.out.Flush()
+			w.ann.Flush()
+			defer fsizeLimit(0)()
+		}
+	}
 	switch tok[0] {
+	case "fslimit":
+		w.limitNext = true
+		fmt.Fprintln(w.ann, line)
+		fmt.Fprintln(w.out, "fslimit ok")
+	case "setenv":
+		// setenv <name> <hex value|->: the test process changes its environment while it runs (os.Setenv /
+		// t.Setenv in some test); restored when the world ends
+		if w.envRestore == nil {
+			w.envRestore = map[string]*string{}
+		}
+		if _, seen := w.envRestore[tok[1]]; !seen {
+			if v, ok := os.LookupEnv(tok[1]); ok {
+				w.envRestore[tok[1]] = &v
+			} else {
+				w.envRestore[tok[1]] = nil
+			}
+		}
+		if tok[2] == "-" {
+			os.Unsetenv(tok[1])
+		} else {
+			os.Setenv(tok[1], unhx(tok[2]))
+		}
+		fmt.Fprintln(w.ann, line)
+		fmt.Fprintln(w.out, "setenv ok")
+	case "fsrmdir":
+		// fsrmdir <hex rel>: a directory of the world removed with everything in it (a tidy-up step between two
+		// calls, a regenerate-golden-files script)
+		os.RemoveAll(w.abs(unhx(tok[1])))
+		fmt.Fprintln(w.ann, line)
+		fmt.Fprintln(w.out, "fsrmdir ok")
 	case "mode":
 		ci, upd := tok[1] == "1", unhx(tok[2])
 		if w.realEnv {
@@ -1454,6 +1522,13 @@ func TestVerifHarness(t *testing.T) {
 			if w.pending != nil {
 				w.runNested()
 				w.flushHeld()
+			}
+			for k, v := range w.envRestore {
+				if v == nil {
+					os.Unsetenv(k)
+				} else {
+					os.Setenv(k, *v)
+				}
 			}
 			w.out.Flush()
 			w.ann.Flush()
